@@ -199,6 +199,9 @@ func normaliseOverlay(root string) map[string][]byte {
 		for _, pk := range pkgs {
 			if len(pk.Errors) > 0 {
 				bad = true
+				if os.Getenv("MYSYNCSA_DEBUG") != "" {
+					fmt.Fprintln(os.Stderr, "normalise: type errors:", pk.Errors)
+				}
 			}
 			for _, f := range pk.Syntax {
 				path := pk.Fset.Position(f.Pos()).Filename
@@ -300,6 +303,12 @@ func normaliseOverlay(root string) map[string][]byte {
 			calleePath := fn.pkg.Fset.Position(fn.decl.Pos()).Filename
 			out, literalized, err := xinline.InlineCall(callPkg.Fset, callPkg.Types, callPkg.TypesInfo, callFile, theCall, content(callerPath),
 				fn.pkg.Types, fn.pkg.TypesInfo, fn.decl, content(calleePath))
+			if err == nil && !literalized {
+				// the inliner's output must parse (a composite literal dropped into an `if` header does not)
+				if _, perr := parser.ParseFile(token.NewFileSet(), callerPath, out, parser.SkipObjectResolution); perr != nil {
+					err = fmt.Errorf("inlined text does not parse: %v", perr)
+				}
+			}
 			if err != nil || literalized {
 				// second chance: the in-place inliner for calls in simple statement positions
 				out2, err2 := srcInline(callPkg.Fset, callPkg.TypesInfo, callPkg.Types, callFile, theCall, content(callerPath), fn.pkg.TypesInfo, fn.decl, fn.pkg.Fset)
